@@ -6,10 +6,10 @@ ALL = ["C%02d" % i for i in range(1, 21)]
 
 # id -> dict(technique, text, note, design_ref, engine)
 CLAIMED = {
- "C01": dict(technique="model-based property testing (proptest histories vs Vec model over 14 item algebras incl. free monoid) + small-scope exhaustive histories",
+ "C01": dict(technique="model-based property testing (proptest histories vs Vec model over 15 item algebras incl. a free monoid and a lazy item with a zero-sized modifier type), debug-assertion and release builds, + small-scope exhaustive histories",
              text="Exploration: generated and exhaustively enumerated operation histories are interpreted against the real Segtree and a plain-array model in lock-step; every ask is compared with the in-order fold, for commutative and free/non-commutative algebras and nested Combinators. Establishes 'held on everything explored', never absence.",
              note="Trusted: the harness item algebras (law-checked each run), the Vec model, proptest's generator. Bounds: histories of <=60 (quick) / <=400 (thorough) ops on n<=130; short histories on large trees (n<=2^12 / 2^15) and on huge SumAdd trees (n about 2^21..2^22, prefix-sum oracle).",
-             design_ref="DESIGN.md §4 C01", engine="E1+E2"),
+             design_ref="DESIGN.md §4 C01", engine="E1+E2+E3"),
  "C02": dict(technique="model-based property testing with instrumented monotone predicates vs brute-force search + small-scope exhaustive histories",
              text="Exploration: lower_bound / lower_bound_rev are run inside generated histories with predicates verified monotone on the model; result compared with brute force and every aggregate shown to the predicate must be an in-order model fold of a range anchored at the start. 'Held on everything explored'.",
              note="Trusted: the model and the monotonicity pre-check of each predicate instance; identity-element arguments are tolerated (DESIGN §6.4).",
